@@ -35,7 +35,12 @@ pub struct Sc {
 pub struct C06;
 
 const BASES: [&str; 6] = ["foo", "bar", "foo-bar", "fo", "baz", "f"];
-const VERSIONS: [&str; 60] = [
+const VERSIONS: [&str; 100] = [
+    // modifiers in every spelling the rule knows ('pre' = 'rc', case-insensitive), letters against numbers
+    "1.0pre1", "1.0pre", "1.0pre2", "1.0PRE1", "1.0RC1", "1.0Rc2", "1.0ALPHA", "1.0Alpha1", "1.0BETA", "1.0Beta2", "1.0PL1", "1.0Pl",
+    "1.0rc2", "1.0beta1", "1.0alpha2", "1.0pl2", "2.0pre1", "2.0rc1", "2.0alpha1", "2.0a", "2.0B", "2.0b", "1.0z", "1.0Z",
+    "1.0.1", "1.0.2", "1.0.26", "1.0.27", "1.0.65", "1.0.97", "1.0.98", "1.0.122", "1.0c", "1.0C", "1.0aa", "1.0ab", "1.0a1", "1.0.0.1",
+    "1.0alphabet", "1.0prefix",
     // characters the dewey rule ignores (non-ASCII of 2, 3 and 4 bytes, ASCII punctuation) next to digits
     "1.0\u{20ac}5", "1\u{2003}2", "2.0\u{212a}1", "1.0\u{e9}1", "1.0\u{1f600}3", "1+2", "1~1", "1.0\u{20ac}nb3", "\u{20ac}1.0",
     // digit runs at and beyond the i64 range (all such values saturate to the same component)
@@ -91,59 +96,111 @@ fn version_of(name: &str) -> &str {
     }
 }
 
-/// Independent model of the dewey rule on the *numeric sub-domain*: versions made
-/// only of digit runs (each below 2^63), '.', '_', characters the rule ignores
-/// (non-ASCII characters and ASCII punctuation other than '.', '_') and one
-/// trailing "nb<digits>".
-/// On this sub-domain the rule is unambiguous (digit run = its value, '.' and
-/// '_' = 0, missing components = 0, the revision decides last) and the pinned
-/// tree agrees with it, so it can be used as an oracle without claiming C01.
-fn numeric_model(v: &str) -> Option<(Vec<u128>, u128)> {
-    let (body, rev) = match v.find("nb") {
-        Some(i) => {
-            let r = &v[i + 2..];
-            if !r.bytes().all(|c| c.is_ascii_digit()) || r.len() > 18 {
-                return None;
-            }
-            (&v[..i], if r.is_empty() { 0 } else { r.parse::<u128>().ok()? })
-        }
-        None => (v, 0),
-    };
-    let b = body.as_bytes();
-    let mut comps = Vec::new();
+/// Independent model of the dewey rule, written from the property text (C06
+/// says "under the dewey order"; C01 spells the rule out): a version is read
+/// left to right as components - a digit run = its value; '.', '_' and "pl" = 0;
+/// "alpha", "beta", "rc"/"pre" = -3, -2, -1; any other ASCII letter = 0 followed
+/// by its alphabet rank; "nb<N>" sets the package revision; letters and
+/// modifiers case-insensitive; every other character ignored.  Components are
+/// compared position by position with missing components read as 0; the
+/// revision decides only when all components tie.
+///
+/// The model declines (None) where the text leaves room: digit runs of more than
+/// 18 digits or at/after i64::MAX, an "nb" that is not spelled in lower case,
+/// an "nb" followed by more than 18 digits, and versions containing pattern
+/// metacharacters.
+///
+/// `Letters::AsciiCode` is NOT the rule: it is the pinned library's deviation
+/// (a letter weighs the ASCII code of its lower-case form instead of its
+/// alphabet rank), modelled only so that the known finding can be told apart
+/// from any other disagreement.
+#[derive(Clone, Copy, PartialEq, Eq)]
+enum Letters {
+    Rank,
+    AsciiCode,
+}
+
+fn has_prefix_ci(b: &[u8], word: &[u8]) -> bool {
+    b.len() >= word.len() && b[..word.len()].eq_ignore_ascii_case(word)
+}
+
+fn dewey_model(v: &str, letters: Letters) -> Option<(Vec<i128>, i128)> {
+    let b = v.as_bytes();
+    let mut comps: Vec<i128> = Vec::new();
+    let mut rev: i128 = 0;
     let mut i = 0;
     while i < b.len() {
-        if b[i].is_ascii_digit() {
+        let c = b[i];
+        if c.is_ascii_digit() {
             let mut j = i;
             while j < b.len() && b[j].is_ascii_digit() {
                 j += 1;
             }
-            let n: u128 = body[i..j].parse().ok()?;
-            if j - i > 30 || n >= (i64::MAX as u128) {
+            if j - i > 30 {
                 return None;
             }
-            comps.push(n);
+            let n: u128 = v[i..j].parse().ok()?;
+            if n >= (i64::MAX as u128) {
+                return None;
+            }
+            comps.push(n as i128);
             i = j;
-        } else if b[i] == b'.' || b[i] == b'_' {
+        } else if c == b'.' || c == b'_' {
             comps.push(0);
             i += 1;
-        } else if b[i] >= 0x80 {
-            // a non-ASCII character: ignored as a whole
-            let ch = body[i..].chars().next()?;
-            i += ch.len_utf8();
-        } else if b[i].is_ascii_punctuation() && !matches!(b[i], b'-' | b'{' | b'}' | b'<' | b'>') {
-            // other ASCII punctuation: ignored
+        } else if has_prefix_ci(&b[i..], b"alpha") {
+            comps.push(-3);
+            i += 5;
+        } else if has_prefix_ci(&b[i..], b"beta") {
+            comps.push(-2);
+            i += 4;
+        } else if has_prefix_ci(&b[i..], b"pre") {
+            comps.push(-1);
+            i += 3;
+        } else if has_prefix_ci(&b[i..], b"rc") {
+            comps.push(-1);
+            i += 2;
+        } else if has_prefix_ci(&b[i..], b"pl") {
+            comps.push(0);
+            i += 2;
+        } else if has_prefix_ci(&b[i..], b"nb") {
+            if &b[i..i + 2] != b"nb" {
+                return None; // "NB": whether the revision marker is case-insensitive is left open
+            }
+            let mut j = i + 2;
+            while j < b.len() && b[j].is_ascii_digit() {
+                j += 1;
+            }
+            if j - (i + 2) > 18 {
+                return None;
+            }
+            rev = if j == i + 2 { 0 } else { v[i + 2..j].parse::<i128>().ok()? };
+            i = j;
+        } else if c.is_ascii_alphabetic() {
+            comps.push(0);
+            let lower = c.to_ascii_lowercase();
+            comps.push(match letters {
+                Letters::Rank => (lower - b'a') as i128 + 1,
+                Letters::AsciiCode => lower as i128,
+            });
             i += 1;
-        } else {
+        } else if c >= 0x80 {
+            // a non-ASCII character: ignored as a whole
+            let ch = v[i..].chars().next()?;
+            i += ch.len_utf8();
+        } else if matches!(c, b'-' | b'{' | b'}' | b'<' | b'>') {
             return None;
+        } else {
+            // any other ASCII character (punctuation, blank, control): ignored
+            i += 1;
         }
     }
     Some((comps, rev))
 }
 
-fn numeric_cmp(a: &str, b: &str) -> Option<std::cmp::Ordering> {
-    let (ca, ra) = numeric_model(version_of(a))?;
-    let (cb, rb) = numeric_model(version_of(b))?;
+fn model_cmp(a: &str, b: &str, letters: Letters) -> Option<std::cmp::Ordering> {
+    let (ca, ra) = dewey_model(version_of(a), letters)?;
+    let (cb, rb) = dewey_model(version_of(b), letters)?;
     let n = ca.len().max(cb.len());
     for i in 0..n {
         let x = ca.get(i).copied().unwrap_or(0);
@@ -153,6 +210,20 @@ fn numeric_cmp(a: &str, b: &str) -> Option<std::cmp::Ordering> {
         }
     }
     Some(ra.cmp(&rb))
+}
+
+fn model_winner<'a>(a: &'a str, b: &'a str, letters: Letters) -> Option<&'a str> {
+    Some(match model_cmp(a, b, letters)? {
+        std::cmp::Ordering::Greater => a,
+        std::cmp::Ordering::Less => b,
+        std::cmp::Ordering::Equal => {
+            if a <= b {
+                a
+            } else {
+                b
+            }
+        }
+    })
 }
 
 /// Is version(a) strictly greater than version(b), in the order the library
@@ -201,6 +272,7 @@ fn merge_step(
     b: &str,
     ctx: &mut Ctx,
     what: &str,
+    deferred: &mut Option<Violation>,
 ) -> Result<Option<String>, Violation> {
     let r = pat.best_match(a, b);
     let ma = pat.matches(a);
@@ -260,30 +332,39 @@ fn merge_step(
         r2
     );
     if ma && mb {
-        // on the numeric sub-domain the winner is fixed by the dewey rule itself
-        if let Some(ord) = numeric_cmp(a, b) {
-            ctx.probe("numeric-subdomain-pair");
-            let want = match ord {
-                std::cmp::Ordering::Greater => a,
-                std::cmp::Ordering::Less => b,
-                std::cmp::Ordering::Equal => {
-                    if a <= b {
-                        a
-                    } else {
-                        b
+        // the winner of a pair in which both match is fixed by the dewey rule itself
+        if let Some(want) = model_winner(a, b, Letters::Rank) {
+            ctx.probe("dewey-model-pair");
+            let has = |n: &str, f: &dyn Fn(u8) -> bool| version_of(n).bytes().any(|c| f(c));
+            if has(a, &|c| c.is_ascii_alphabetic()) || has(b, &|c| c.is_ascii_alphabetic()) {
+                ctx.probe("dewey-model-pair-with-letters-or-modifiers");
+            }
+            if r != Some(want) {
+                // tell the recorded letter-weight deviation apart from everything else
+                let known_class = model_winner(a, b, Letters::AsciiCode).is_some_and(|w| r == Some(w));
+                let v = Violation::new(
+                    "winner-differs-from-dewey-rule",
+                    format!(
+                        "{}{}: best_match({:?}, {:?}) = {:?}; under the dewey rule (digit runs by value; '.', '_', pl = 0; alpha/beta/rc|pre = -3/-2/-1; other letters = 0 then alphabet rank; case-insensitive; zero padding; nb revision last; ties to the smaller name) the winner is {:?}",
+                        if known_class { "[letter-weight-ascii-code] " } else { "" },
+                        what,
+                        a,
+                        b,
+                        r,
+                        want
+                    ),
+                );
+                if known_class {
+                    // recorded finding: keep checking the rest of the run, so that it
+                    // cannot hide a different violation; reported at the end of the run
+                    ctx.probe("letter-weight-deviation-seen");
+                    if deferred.is_none() {
+                        *deferred = Some(v);
                     }
+                } else {
+                    return Err(v);
                 }
-            };
-            ensure!(
-                r == Some(want),
-                "winner-differs-from-dewey-rule",
-                "{}: best_match({:?}, {:?}) = {:?}; under the dewey rule (digit runs by value, '.'/'_' = 0, zero padding, nb revision last; ties to the smaller name) the winner is {:?}",
-                what,
-                a,
-                b,
-                r,
-                want
-            );
+            }
         }
         if !a.contains('-') || !b.contains('-') {
             ctx.probe("both-match-one-without-dash");
@@ -394,6 +475,7 @@ impl Property for C06 {
         };
         let mut state: Vec<Option<String>> = vec![None; sc.replicas.len()];
         let mut seen_all: Vec<&str> = Vec::new();
+        let mut deferred: Option<Violation> = None;
         for (ri, dels) in sc.replicas.iter().enumerate() {
             let mut seen: Vec<&str> = Vec::new();
             for (di, d) in dels.iter().enumerate() {
@@ -410,14 +492,14 @@ impl Property for C06 {
                 seen.push(&d.name);
                 let what = format!("replica {} delivery {}", ri, di);
                 state[ri] = match &state[ri] {
-                    None => merge_step(&pat, &d.name, &d.name, ctx, &what)?,
+                    None => merge_step(&pat, &d.name, &d.name, ctx, &what, &mut deferred)?,
                     Some(cur) => {
                         let cur = cur.clone();
                         if d.new_first {
                             ctx.fault("reorder");
-                            merge_step(&pat, &d.name, &cur, ctx, &what)?
+                            merge_step(&pat, &d.name, &cur, ctx, &what, &mut deferred)?
                         } else {
-                            merge_step(&pat, &cur, &d.name, ctx, &what)?
+                            merge_step(&pat, &cur, &d.name, ctx, &what, &mut deferred)?
                         }
                     }
                 };
@@ -457,9 +539,9 @@ impl Property for C06 {
                 (None, x) | (x, None) => x,
                 (Some(p), Some(q)) => {
                     if m.from_first {
-                        merge_step(&pat, &p, &q, ctx, &what)?
+                        merge_step(&pat, &p, &q, ctx, &what, &mut deferred)?
                     } else {
-                        merge_step(&pat, &q, &p, ctx, &what)?
+                        merge_step(&pat, &q, &p, ctx, &what, &mut deferred)?
                     }
                 }
             };
@@ -493,7 +575,10 @@ impl Property for C06 {
                 }
             }
         }
-        Ok(())
+        match deferred {
+            Some(v) => Err(v),
+            None => Ok(()),
+        }
     }
 
     fn shrink(&self, sc: &Sc, emit: &mut dyn FnMut(Sc) -> bool) {
@@ -534,8 +619,12 @@ impl Property for C06 {
         }
     }
 
-    fn classify(&self, _sc: &Sc, _v: &Violation) -> String {
-        String::new()
+    fn classify(&self, _sc: &Sc, v: &Violation) -> String {
+        if v.detail.starts_with("[letter-weight-ascii-code] ") {
+            "letter-weight-ascii-code".to_string()
+        } else {
+            String::new()
+        }
     }
 
     fn rule(&self) -> String {
@@ -558,7 +647,7 @@ impl Property for C06 {
         vec![
             "the reference maximum uses the version order the library exposes through single-bound patterns (its agreement with pkg_install is C01, not claimed)",
             "candidate versions contain no '{', '}', '<' or '>'",
-            "on the numeric sub-domain (digit runs below 2^63, '.', '_', one trailing nb<digits>) the winner of each pair is additionally compared with an independent model of the dewey rule",
+            "the winner of each pair in which both candidates match is additionally compared with an independent model of the dewey rule written from the property text (digit runs below 2^63; '.', '_', pl = 0; alpha/beta/rc|pre; letters by alphabet rank; case-insensitive; ignored characters; nb<N> revision); the model declines on digit runs at or beyond i64::MAX and on an 'nb' not in lower case",
         ]
     }
     fn expected_probes(&self) -> Vec<&'static str> {
@@ -570,7 +659,8 @@ impl Property for C06 {
             "exactly-one-matches",
             "duplicate-delivered-after-beaten",
             "both-match-one-without-dash",
-            "numeric-subdomain-pair",
+            "dewey-model-pair",
+            "dewey-model-pair-with-letters-or-modifiers",
         ]
     }
 }
